@@ -376,7 +376,45 @@ def cases(ctx):
     return out
 
 
+THREAD_NETS = [(['CC'], 'smarts', ['C-H scission', 'C-C scission']),
+               (['CCO'], 'smarts', ['C-O scission', 'O-H scission']),
+               (['CCC'], 'ring', ['C-C scission']),
+               (['CO'], 'ring', ['C-H scission', 'O-H scission']),
+               (['C=C'], 'ring', ['C=C to diradical']),
+               (['[CH2]CCC'], 'ring', ['beta scission']),
+               (['C[CH]CC'], 'ring', ['1,2-H shift']),
+               (['CC', 'CO'], 'smarts', ['dehydrogenation to C=C']),
+               (['C1CC1'], 'smarts', ['C-C scission']),
+               (['[CH2]C[CH2]'], 'smarts', ['1,3-diradical ring closure']),
+               (['OCCO'], 'ring', ['C-C scission', 'C-O scission']),
+               (['CC'], 'ring', [])]
+
+
+def check_threads(ctx, rounds=2):
+    """A network is a function of (seeds, rule texts): networks generated by
+    four threads at once from TEXT rules (every call builds its own rule
+    objects) are the species lists a lone call returns, in the same order."""
+    from vmon.core import threads as TH
+    from pgradd.RDkitWrapper.GenRxnNet import GenerateRxnNet
+
+    def make_jobs():
+        jobs = []
+        for k, (seeds, kind, names) in enumerate(THREAD_NETS):
+            table = SMARTS_RULES if kind == 'smarts' else RING_RULES
+
+            def thunk(seeds=seeds, rules=[table[n] for n in names]):
+                return repr([Chem.MolToSmiles(m) for m in GenerateRxnNet(
+                    list(seeds), list(rules))])
+            jobs.append((k, thunk))
+        return jobs
+    res = TH.stress(make_jobs, nthreads=4, rounds=rounds, watchdog=600)
+    TH.judge(ctx, res, 'network generation from rule texts',
+             {'what': 'thread stress'})
+
+
 def run_shard(ctx):
+    if ctx.shard % 4 == 1:
+        check_threads(ctx)
     allc = cases(ctx)
     r = ctx.sub_rng('c17')
     r.shuffle(allc)
@@ -391,6 +429,8 @@ def run_shard(ctx):
 
 
 def replay(ctx, case):
+    if case.get('what') == 'thread stress':
+        return check_threads(ctx, rounds=8)
     check_case(ctx, case)
 
 
